@@ -107,7 +107,7 @@ def addr2line_safe(co, tab):
     return True
 
 
-def dump_code(co, path, src, qual, out):
+def dump_code(co, path, src, qual, out, anc=()):
     code = co.co_code
     tab = co.co_linetable if VER >= (3, 10) else co.co_lnotab
     us = units(code)
@@ -139,23 +139,26 @@ def dump_code(co, path, src, qual, out):
         ref_lines = [[opoff, f(co, opoff)] for (_, opoff, _, _) in us]
     if VER >= (3, 11):
         nlocalsplus = len(co.co_varnames) + len([c for c in co.co_cellvars if c not in co.co_varnames]) + len(co.co_freevars)
+        # 3.11: LOAD_FAST/STORE_FAST/LOAD_DEREF/... all index the frame's localsplus array
         nfreeidx = nlocalsplus
+        nlocalidx = nlocalsplus
         exc = len(co.co_exceptiontable)
     else:
         nfreeidx = len(co.co_cellvars) + len(co.co_freevars)
+        nlocalidx = len(co.co_varnames)
         exc = 0
     rec = {
-        "pyc": path, "src": src, "qual": qual, "name": co.co_name, "filename": co.co_filename,
+        "pyc": path, "src": src, "qual": qual, "name": co.co_name, "filename": co.co_filename, "ancestors": list(anc),
         "code": list(code), "stacksize": co.co_stacksize, "nconsts": len(co.co_consts), "nnames": len(co.co_names),
-        "nlocals": len(co.co_varnames), "co_nlocals": co.co_nlocals, "nfreeidx": nfreeidx,
-        "firstlineno": co.co_firstlineno, "linetable": list(tab), "exclen": exc, "effects": effs,
+        "nlocals": nlocalidx, "co_nlocals": co.co_nlocals, "nfreeidx": nfreeidx,
+        "firstlineno": co.co_firstlineno, "linetable": list(tab), "exclen": exc, "effects": effs, "flags": co.co_flags,
         "ref_instrs": ref_instrs, "dis_error": dis_err, "ref_lines": ref_lines,
     }
     out.write(json.dumps(rec) + "\n")
     k = 0
     for c in co.co_consts:
         if hasattr(c, "co_code"):
-            dump_code(c, path, src, qual + [k], out)
+            dump_code(c, path, src, qual + [k], out, tuple(anc) + (co.co_name,))
         k += 1
 
 
@@ -175,8 +178,45 @@ def dump(listfile):
         dump_code(co, path, src, [], out)
 
 
+def fuzzlines(jsonfile):
+    """model validation on arbitrary line tables: [[firstlineno, [bytes], [addr, ...]], ...] -> PyCode_Addr2Line per addr
+    (None where the C decoder cannot be called safely).  Needs code.replace (3.8+)."""
+    import ctypes
+    f = ctypes.pythonapi.PyCode_Addr2Line
+    f.argtypes = [ctypes.py_object, ctypes.c_int]
+    f.restype = ctypes.c_int
+    base = (lambda: 0).__code__
+    out = []
+    for first, tab, addrs in json.load(open(jsonfile)):
+        tab = bytes(tab)
+        n = (max(addrs) + 2) if addrs else 2
+        kw = {"co_code": bytes([9, 0]) * (n // 2 + 1), "co_firstlineno": first}
+        kw["co_linetable" if VER >= (3, 10) else "co_lnotab"] = tab
+        co = base.replace(**kw)
+        if not addr2line_safe(co, tab):
+            out.append(None)
+        else:
+            out.append([f(co, a) for a in addrs])
+    json.dump(out, sys.stdout)
+
+
+def pycompile(listfile):
+    """compile python sources with this interpreter's own compiler: lines 'src<TAB>dst'"""
+    import py_compile
+    for line in open(listfile):
+        src, _, dst = line.rstrip("\n").partition("\t")
+        try:
+            py_compile.compile(src, cfile=dst, doraise=True)
+        except Exception:
+            pass
+
+
 if __name__ == "__main__":
     if sys.argv[1] == "probe":
         probe()
+    elif sys.argv[1] == "fuzzlines":
+        fuzzlines(sys.argv[2])
+    elif sys.argv[1] == "pycompile":
+        pycompile(sys.argv[2])
     else:
         dump(sys.argv[2])
